@@ -114,6 +114,14 @@ HISTORY = {
     "C16-7": ("caught (round 4)", ""),
     "C17-7": ("missed (round 4)", "C17 aead-siblings/accepts-agree/filename-length (upload path and imeta parser refuse above the same constant; a bound reaching an API parameter is a mismatch)"),
     "C18-7": ("caught (round 4)", ""),
+    "C02-8": ("caught by C09 only (round 4, wave 2)", "C02 stored-messages-survive-rollback (C09's frame / cascade obligations for the rollback statements, shared)"),
+    "C05-8": ("caught (round 4, wave 2)", ""),
+    "C12-8": ("caught by C01 / C07 only (round 4, wave 2)", "C12 shares C07's only-after-rollback (the bookkeeping of a rollback is success-dominated by the restore); that rule and C01's after-rollback must-pass now see through helpers (`eq-rollback-bookkeeping-helper`)"),
+    "C14-8": ("missed (round 4, wave 2)", "C14: the OpenMLS extension containers (Extensions, Extension, UnknownExtension, GroupContextExtensionProposal) hold the raw group-data extension and are treated as carriers / leaky Debug types"),
+    "C16-8": ("caught, with a second, spurious key (round 4, wave 2; the guard inside the new helper was not seen)", "C16 existing-group-untouched evaluates mdk-core helpers inline, so a guard that lives in the helper decides (`eq-welcome-guard-in-helper`)"),
+    "C18-8": ("missed (round 4, wave 2)", "C09 sql-columns / C18 last-message-pointer `snapshot-restore/<table>/tuple-positions-agree` (per tuple position, the column the snapshot writer read = the column the restore binds)"),
+    "C19-8": ("caught, with a third, spurious key (round 4, wave 2; a snapshot builder that is handed the locked state)", "C19 snapshot-one-instant: a builder taking `&MdkMemoryStorageInner` is judged at its callers (exactly one guard held across the call)"),
+    "C20-8": ("missed (round 4, wave 2)", "C20 prune-after-push / C11 hydration-coverage `list-oldest-first` (SQLite ORDER BY created_at ASC, memory sort key = created_at)"),
 }
 rows = ["| id | change (needs) | first | now caught by | strengthened |", "|----|----------------|-------|---------------|--------------|"]
 sd = os.path.join(VERIF, "seeded")
